@@ -76,20 +76,6 @@ CHECKS = {
         technique="TLA+ trace validation (TLC) of followed redirect chains + bounded model check of redirect convergence",
         design_ref="6/C12",
     ),
-    "C13": dict(
-        category="model_checking",
-        text="TLC checks an implementation-shaped TLA+ model of dump_cookie and of the request cookie parser (_cookie_re scanner, strip, unslash) against the contract (value ASCII, every octet outside RFC 6265 cookie-octet quoted and escaped, decodes to the text; header = pair + exactly the requested attributes in canonical spelling and order; ParseCookie(Dump)=identity) for every value <=3-5 chars over 18 representative code points, every byte value and class-boundary code point, and attribute products; the pinned escape class must violate it. The model universe is exported and replayed on the real code; together with a boundary code-point sweep and seeded Unicode/attack-string cases through dump_cookie/Response.set_cookie -> sansio parse_cookie, http.parse_cookie(environ) and the test client's jar, every recorded line is judged by the TLC trace spec, which also reports model drift (incl. the real parser vs the scanner model on random Cookie strings).",
-        note="Trusted: TLC, trace encoding, harness/cookie.py recorders, IDNA table, HTTP-date arithmetic in Cookie.tla (validated against http_date by the green runs). Raw SP inside quotes accepted (documented by the test-suite); attribute order = pinned tree's. Exhaustive only within model bounds; Unicode sampled (seeded). Jar flow limited to unreserved paths / ASCII lower-case hosts. Attribute injection through the domain argument is observed but not claimed (the property quantifies over domains, not attack strings in them).",
-        technique="TLA+ model checking (TLC) of dump/parse codec model + spec->code replay + trace validation of three parse-back paths",
-        design_ref="6/C13",
-    ),
-    "C07": dict(
-        category="exploration",
-        text="TLC enumerates the hostile input space defined in spec/hostile (per header family every token sequence up to the bound, every field-value character in every context, pumped tokens and token pairs; invariants: in domain, bounded); the texts plus seeded random sequences are fed to every listed parser and, through client-controlled environ variables, to every public Request attribute; every distinct recorded outcome vector (type signature / exception class / 4xx code / CPU budget exhausted, per position) is judged by the TLC trace spec against the table of documented result signatures and the exception contract.",
-        note="Exploration, not model checking: TLA+ supplies the input grammar and the outcome contract; which inputs crash is found by running the code. Trusted: TLC, the recorder (type signatures, HTTPException test, ITIMER_VIRTUAL 10 s budget). Domain 0x20-0x7E and 0x80-0xFF; server-controlled variables and the body fixed; serialisers reported only; Request slots sampled for >=3-token texts; values not checked.",
-        technique="TLC-generated and seeded hostile inputs + TLC-judged outcome contract (exception class / documented type / termination)",
-        design_ref="6/C07",
-    ),
     "C08": dict(
         category="model_checking",
         text="TLC exhaustively checks the documented container model (insertion-ordered multimap; case-insensitive ordered pairs for Headers; case-insensitive ordered set for HeaderSet, plus an implementation-shaped list+set model) over bounded alphabets to the fixpoint: representation invariants, coherence laws between reads, documented post-conditions of every mutator. The model's complete labelled transition system is exported and every transition is replayed on the real objects along covering walks; seeded random scenarios with several live objects (copies, pickles, deep copies, immutable/combined/file variants, environ views) are recorded; after every call the return value/exception class, all public reads of every live object and ==/hash probes are judged by the TLC trace spec.",
@@ -152,6 +138,20 @@ CHECKS = {
         note="Trusted: TLC, JSON trace encoding, recorder harness/hosttrust.py (observable extraction). IDNA ToASCII uninterpreted (recorded). Either verdict accepted for case/IDNA-equivalent/trailing-dot/odd-port/malformed-entry cases. Positive clauses only with PIN on. Exhaustive only within model bounds; traceback-page path, real frame objects, run_simple, multi-process counter not exercised. Usability (positive) clauses are checked on the model and reported as drift on the code, never as verdicts. ProxyFix: judged cases carry no quoted list items (quote/backslash only in client-prepended twin values, outcome changes there are drift); environ-key placement, URL texts, access_route and 'listed but rejected' are drift only.",
         technique="TLA+ model checking (TLC) of contract + implementation-shaped models; spec->code replay of exported tables/LTS; TLC trace validation of recorded executions",
         design_ref="6/C20",
+    ),
+    "C13": dict(
+        category="model_checking",
+        text="TLC checks an implementation-shaped TLA+ model of dump_cookie and of the request cookie parser (_cookie_re scanner, strip, unslash) against the contract (value ASCII, every octet outside RFC 6265 cookie-octet quoted and escaped, decodes to the text; header = pair + exactly the requested attributes in canonical spelling and order; ParseCookie(Dump)=identity) for every value <=3-5 chars over 18 representative code points, every byte value and class-boundary code point, and attribute products; the pinned escape class must violate it. The model universe is exported and replayed on the real code; together with a boundary code-point sweep and seeded Unicode/attack-string cases through dump_cookie/Response.set_cookie -> sansio parse_cookie, http.parse_cookie(environ) and the test client's jar, every recorded line is judged by the TLC trace spec, which also reports model drift (incl. the real parser vs the scanner model on random Cookie strings). The test client's jar is additionally modelled as a TLA+ state machine (ClientJar.tla: stored cookies keyed by (domain, path, name), model clock; Set-Cookie set/overwrite/delete, followed redirects, Client.set_cookie/delete_cookie/get_cookie). TLC checks the contract on every transition of every history up to depth 3-4 (live undeleted cookie returned unchanged on every matching request, nothing to a non-matching origin/path or after deletion, stored attributes = requested) and requires three broken matcher/delete variants to fail; the exported transition system is replayed on a real Client and seeded random histories are judged by ClientJarTrace.tla.",
+        note="Trusted: TLC, trace encoding, harness/cookie.py recorders, IDNA table, HTTP-date arithmetic in Cookie.tla (validated against http_date by the green runs). Raw SP inside quotes accepted (documented by the test-suite); attribute order = pinned tree's. Exhaustive only within model bounds; Unicode sampled (seeded). Jar flow limited to unreserved paths / ASCII lower-case hosts. Attribute injection through the domain argument is observed but not claimed (the property quantifies over domains, not attack strings in them). Jar: expiry by clock and Secure-over-http are accepted either way (documented as ignored by the client); Set-Cookie with a Domain not covering the host is out of contract; the jar model is exhaustive only within 3 hosts x 3 paths x <=2 names x <=6 lifetimes, depth <=4.",
+        technique="TLA+ model checking (TLC) of dump/parse codec model + spec->code replay + trace validation of three parse-back paths",
+        design_ref="6/C13",
+    ),
+    "C07": dict(
+        category="exploration",
+        text="TLC enumerates the hostile input space defined in spec/hostile (per header family every token sequence up to the bound, every field-value character in every context, pumped tokens and token pairs; invariants: in domain, bounded); the texts plus seeded random sequences are fed to every listed parser and, through client-controlled environ variables, to every public Request attribute; every distinct recorded outcome vector (type signature / exception class / 4xx code / CPU budget exhausted, per position) is judged by the TLC trace spec against the table of documented result signatures and the exception contract. Range / Content-Range and HTTP-date inputs are additionally generated from grammars (every numeric position n-1, n, n+1 relative to its neighbour, long digit runs; boundary instants x 21 zone forms).",
+        note="Exploration, not model checking: TLA+ supplies the input grammar and the outcome contract; which inputs crash is found by running the code. Trusted: TLC, the recorder (type signatures, HTTPException test, ITIMER_VIRTUAL 10 s budget). Domain 0x20-0x7E and 0x80-0xFF; server-controlled variables and the body fixed; serialisers reported only; Request slots sampled for >=3-token texts; values not checked.",
+        technique="TLC-generated and seeded hostile inputs + TLC-judged outcome contract (exception class / documented type / termination)",
+        design_ref="6/C07",
     ),
     # --- END CHECKS (new entries go above this line) ---
 }
